@@ -101,5 +101,5 @@ def run(tier, seed):
     tasks = []
     for cfg in cfgs:
         run_config(rep, cfg, tier, tasks)
-    run_tasks(tasks)
+    run_tasks(tasks, rep)
     return rep
